@@ -210,7 +210,7 @@ def gen_case(rnd):
         loop = ("sym_step",)
     mul = rnd.choice([NT, NT, NT // 2 * 2, 2 * NT])
     # some compute operations take a scalar next to their buffer (zero point of a quantised kernel), first or last
-    stages = [[(("gens", o[1], rnd.choice(["first", "last"]), o[3], o[4]) if o[0] == "gen" and rnd.random() < 0.25 else o) for o in ops] for ops in stages]
+    stages = [[(("gens", o[1], rnd.choice(["first", "last", "first_i", "last_i"]), o[3], o[4]) if o[0] == "gen" and rnd.random() < 0.25 else o) for o in ops] for ops in stages]
     # tile buffers are allocations, or views into one scratchpad allocated in front of the loop
     tile_kind = "view" if rnd.random() < 0.2 else "alloc"
     if tile_kind == "alloc" and len(tiles) and sum(map(ord, "".join(tiles))) % 9 == 0 and S % 2:
@@ -226,12 +226,16 @@ def render(case):
     ty = lambda v: (TILE if tile_kind in ("alloc", "global") else SUB) if v.startswith("%t") else SUB
     for ops in stages:
         for o in ops:
-            if o[0] == "copy":
+            if o[0] == "idxop":
+                # index arithmetic between two stages (not at the head of the loop body)
+                L.append(P + f"%sm = memref.subview %C[%off] [{NT}] [1] : {BIG} to {SUB}")
+            elif o[0] == "copy":
                 L.append(P + f'"memref.copy"({o[1]}, {o[2]}) {{tag = {o[3]} : i32}} : ({ty(o[1])}, {ty(o[2])}) -> ()')
             elif o[0] == "gens":
                 _, buf, pos, out, t = o
-                ins = [("%zp", "i32", "affine_map<(d0) -> ()>"), (buf, ty(buf), "affine_map<(d0) -> (d0)>")]
-                if pos == "last":
+                # the scalar is a function argument, or (pos ..._i) computed from the loop counter like the tile offsets
+                ins = [("%zi" if pos.endswith("_i") else "%zp", "i32", "affine_map<(d0) -> ()>"), (buf, ty(buf), "affine_map<(d0) -> (d0)>")]
+                if pos.startswith("last"):
                     ins.reverse()
                 L.append(P + GEN1S.format(ops=", ".join(x[0] for x in ins) + ", " + out, maps=", ".join(x[2] for x in ins) + ", affine_map<(d0) -> (d0)>",
                                           tys=", ".join(x[1] for x in ins) + ", " + ty(out), t=t, ind=P))
@@ -276,6 +280,7 @@ builtin.module {{
 {allocs}
 {pre_loop}    scf.for %i = %l to %u step %s {{
       %off = arith.muli %i, %c : index
+      %zi = arith.index_cast %off : index to i32
       %sa = memref.subview %A[%off] [{NT}] [1] : {BIG} to {SUB}
       %sb = memref.subview %B[%off] [{NT}] [1] : {BIG} to {SUB}
       %sc = memref.subview %C[%off] [{NT}] [1] : {BIG} to {SUB}
@@ -315,6 +320,8 @@ def case_pipe(case, K=6):
             xshim.apply_passes(m2, "pipeline-duplicate-buffers,unroll-pipeline", main)
         except NotImplementedError as e:
             raise Declined(f"compiler declines: {str(e)[:70]}")
+        except (AssertionError, RuntimeError) as e:
+            raise Declined(f"compiler aborts: {type(e).__name__} {str(e)[:40]}")
         try:
             m2.verify()
         except Exception as e:
@@ -454,6 +461,10 @@ def run(chk):
         "skip3b": (3, ("%t0", "%t1"), ((("copy", "%sa", "%t0", next(tag)),), (("gen", "%sc", "%sc", "%t1", next(tag)),), (("gen", "%t1", "%t0", "%sb", next(tag)),))),
         "feedback2": (2, ("%t0",), ((("copy", "%t0", "%sb", next(tag)),), (("gen", "%sa", "%sc", "%t0", next(tag)),))),
         "feedback3": (3, ("%t0", "%t1"), ((("copy", "%t0", "%sb", next(tag)),), (("gen", "%t1", "%sc", "%t0", next(tag)),), (("gen", "%sa", "%sc", "%t1", next(tag)),))),
+        "chain3_index_scalar": (3, ("%t0", "%t1"), ((("copy", "%sa", "%t0", next(tag)),), (("gens", "%t0", "first_i", "%t1", next(tag)),), (("gens", "%t1", "last_i", "%sb", next(tag)),))),
+        "chain4_index_op_between_stages": (4, ("%t0", "%t1", "%t2"), ((("copy", "%sa", "%t0", next(tag)),), (("gen", "%t0", "%sc", "%t1", next(tag)),),
+                                                                          (("idxop",), ("gen", "%t1", "%sm", "%t2", next(tag))), (("copy", "%t2", "%sb", next(tag)),))),
+        "chain3_index_op_between_stages": (3, ("%t0", "%t1"), ((("copy", "%sa", "%t0", next(tag)),), (("idxop",), ("gen", "%t0", "%sm", "%t1", next(tag))), (("copy", "%t1", "%sb", next(tag)),))),
         "chain3": (3, ("%t0", "%t1"), ((("copy", "%sa", "%t0", next(tag)),), (("gen", "%t0", "%sc", "%t1", next(tag)),), (("copy", "%t1", "%sb", next(tag)),))),
     }
     for nm, (S_, tiles_, stages_) in fixed.items():
